@@ -3,6 +3,7 @@ package main
 import (
 	"bytes"
 	"encoding/hex"
+	"errors"
 	"fmt"
 	"math/bits"
 	"strings"
@@ -66,6 +67,8 @@ func (o c17Op) String() string {
 		return fmt.Sprintf("Lock;Generate(%s,%d);Unlock", ch, o.K)
 	case "scan":
 		return fmt.Sprintf("Scan(%d,ext=%0*b,chg=%0*b)", o.K, o.K, o.Mask[0], o.K, o.Mask[1])
+	case "scanfail":
+		return fmt.Sprintf("Scan(%d,finder fails at its call no. %d)", o.K, o.Mask[0])
 	}
 	return o.Op
 }
@@ -270,6 +273,17 @@ func (f *fakeTF) AddressesActivity(addrs []cipher.Addresser) ([]bool, error) {
 	return out, nil
 }
 
+// failingTF answers "no activity" until its failAt-th call, which fails.
+type failingTF struct{ failAt, calls int }
+
+func (f *failingTF) AddressesActivity(addrs []cipher.Addresser) ([]bool, error) {
+	f.calls++
+	if f.calls >= f.failAt {
+		return nil, errors.New("verif: the node cannot look up transactions right now")
+	}
+	return make([]bool, len(addrs)), nil
+}
+
 func addrStrings(a []cipher.Addresser) []string {
 	out := make([]string, len(a))
 	for i, x := range a {
@@ -344,6 +358,14 @@ func (sp *c17Space) ops(l *c17Live) []c17Op {
 				}
 				ops = append(ops, c17Op{Op: "scan", K: k, Mask: [2]int{m0, m1}})
 			}
+		}
+	}
+	// a scan that is abandoned half-way: the transactions finder reports an error (at its first call; for the two-chain wallet
+	// also at its second call, after the external chain was scanned)
+	if kind != "collection" && n[0]+2 <= sp.maxLen[0] && (chains == 1 || n[1]+2 <= sp.maxLen[1]) {
+		ops = append(ops, c17Op{Op: "scanfail", K: 2, Mask: [2]int{1, 0}})
+		if chains == 2 {
+			ops = append(ops, c17Op{Op: "scanfail", K: 2, Mask: [2]int{2, 0}})
 		}
 	}
 	ops = append(ops, c17Op{Op: "reload"}, c17Op{Op: "clone"})
@@ -456,6 +478,17 @@ func (sp *c17Space) apply(l *c17Live, op c17Op, check bool) string {
 			}
 			if after != want {
 				failf("ScanAddresses:wrong-number-of-addresses-kept:"+kind, "chain lengths after the scan %v, expected %v (keep up to the highest active address)", after, want)
+			}
+		case "scanfail":
+			tf := &failingTF{failAt: op.Mask[0]}
+			before := verifState(l.w)
+			_, err := l.w.ScanAddresses(uint64(op.K), tf)
+			if err == nil {
+				failf("ScanAddresses:finder-error-swallowed:"+kind, "the transactions finder failed at its call no. %d, ScanAddresses reports success", op.Mask[0])
+			}
+			if after := verifState(l.w); after != before {
+				failf("ScanAddresses:failed-scan-changes-the-wallet:"+kind, "the scan failed (%v) but the wallet changed: before %s, after %s", err, before, after)
+				l.bad = "failed scan changed the wallet"
 			}
 		case "reload":
 			data, err := l.w.Serialize()
